@@ -4,7 +4,10 @@ C05 - parsing is a pure function of the command line, the format and the mode.
 Cases: histories (1-6 parse requests drawn from the C01/C02 generators, same or different formats,
 strict or lenient, succeeding or failing) issued to ONE DefaultArgsParser - directly, or installed
 as the shared parser of a config and reached through Command.parse - each compared with what a
-fresh parser gives.  Snapshots: the argv list handed to ArgvArgs, RawArgs.tokens and the format's
+fresh parser gives.  Through Command.parse the MODE is a dimension of its own: given explicitly
+(True / False) or omitted, on a config whose lenient parsing was enabled, disabled or never touched -
+per request (a command of its own) or on one command for the whole history; the reference is a fresh
+parser with the explicit mode, or with the configured one when the mode is omitted.  Snapshots: the argv list handed to ArgvArgs, RawArgs.tokens and the format's
 listings before/after every call (checked, not proved: Python object identity has no counterpart
 in the functional model).
 """
@@ -15,23 +18,36 @@ ID = "C05"
 DESIGN_REF = "6/C05"
 LEAN_MODULES = ["Clikit.Props.C05"]
 REQUIRED_THEOREMS = ["Clikit.Props.C05.parseFrom_fresh", "Clikit.Props.C05.parseFrom_result",
-                     "Clikit.Props.C05.history_independent", "Clikit.Props.C05.leak_without_reset"]
+                     "Clikit.Props.C05.history_independent", "Clikit.Props.C05.leak_without_reset",
+                     "Clikit.Props.C05.command_parse_explicit", "Clikit.Props.C05.command_parse_default",
+                     "Clikit.Props.C05.command_parse_config_irrelevant", "Clikit.Props.C05.command_history_independent"]
 TECHNIQUE = ("Lean 4 theorem: the parser model started from ANY previous scratch state equals the fresh parse, lifted "
-             "to all histories by induction + differential histories on one real parser object, with mutation snapshots")
+             "to all histories by induction (also through Command.parse: an explicit mode is the mode whatever the config says) "
+             "+ differential histories on one real parser object, with mutation snapshots")
 LEVEL_TEXT = ("history_independent is proved for ALL request sequences and all initial scratch states of the parser object: "
               "each request on a re-used parser equals the fresh parse. Which scratch dictionaries parse() re-initialises is "
               "regenerated from the source on every run (a removed reset breaks the proof; a new self attribute breaks the "
               "translator), the rest of the parser model is hand-written and tied to the code by differential histories on "
-              "one real DefaultArgsParser (also through Config.set_args_parser/Command.parse).")
+              "one real DefaultArgsParser (also through Config.set_args_parser/Command.parse). command_history_independent: "
+              "for every sequence of requests through Command.parse of commands sharing one parser object - mode given or "
+              "omitted, configuration switched between requests - each request is the fresh parse of its tokens, format and "
+              "mode (the explicit one, else the configured one); how Command.parse picks the mode is regenerated from its "
+              "source (Gen.C05.commandMode).")
 LEVEL_NOTE = ("Trusted: Lean kernel + standard axioms, tools/genparts/c05.py, the hand-written parser model (validated by "
-              "the correspondence), harness. Checked, not proved: that ArgvArgs/parse do not mutate the argv list, the raw "
+              "the correspondence), harness; what a command's config answers for is_lenient_args_parsing_enabled() is "
+              "followed by the harness from the setters it calls (last setter wins, strict when none was called) and "
+              "handed to the model as a parameter. Checked, not proved: that ArgvArgs/parse do not mutate the argv list, the raw "
               "args or the format (before/after snapshots; object mutation has no counterpart in a functional model).")
 RULE = ("histories of 1-6 requests from a pool (C02 catalogue formats x adversarial tokens, C01 well-formed lines on "
         "generated formats), exhaustive over a 10-request pool for length <= 2 (quick) / 3 (thorough), random beyond; "
+        "through Command.parse: every pool line x mode {False, True, omitted} x config {untouched, enabled, disabled} as "
+        "a single request, pairs of requests to ONE command with the config changed before or between them, and 60 % of the "
+        "requests of the random histories that go through a command (one command per request or one for the history); "
         "non-trivial = length >= 2 with an option set or an error in an earlier request; distinct = the history")
 TRUSTED_BASE = [
     "Lean 4.33 kernel; axioms within propext, Classical.choice, Quot.sound (audited per theorem on every run)",
-    "tools/genparts/c05.py: reads which scratch dictionaries DefaultArgsParser.parse re-initialises, and that the class keeps no other state",
+    "tools/genparts/c05.py: reads which scratch dictionaries DefaultArgsParser.parse re-initialises, that the class keeps "
+    "no other state, and how Command.parse chooses the mode it hands to the parser",
     "lean/Clikit/Model/Parser.lean: hand-written model of the parser (modelled, not verified; tied by the correspondence runs of C01/C02/C05)",
     "harness/props/c05.py, harness/parser_common.py: generators, snapshots, canonical encoding; int()/float() tables taken from CPython",
 ]
@@ -54,6 +70,34 @@ def _pool():
     return out
 
 
+# how a request reaches the parser when it goes through Command.parse(args, lenient=None):
+#   "lenient": True / False (given explicitly) or None (parameter omitted: the command's config decides)
+#   "cfg":     None (configuration untouched), "enable" / "disable" (Config.enable_/disable_lenient_args_parsing()
+#              called on the command's config before the request)
+# via "config": every request gets a command with a config of its own; via "command": ONE command and config for the
+# whole history (what a setter did stays in force for the later requests); the parser object is shared in both.
+MODES = [False, True, None]
+CFGS = [None, "enable", "disable"]
+
+
+def _command_cases(tier):
+    import itertools
+    spec = c02.CATALOGUE[1]
+    lines = POOL_TOKENS if tier != "quick" else [POOL_TOKENS[i] for i in (0, 1, 4, 5, 6, 7)]
+    # one request: every line x every way of giving the mode x every configuration
+    for t in lines:
+        for mode, cfg in itertools.product(MODES, CFGS):
+            yield {"requests": [{"spec": spec, "tokens": t, "lenient": mode, "cfg": cfg}], "via": "config"}
+    # two requests to ONE command: the configuration is changed before the first or between the two
+    pairs = [(["--foo", "x"], ["a", "b", "c", "d"]), (["--unknown"], ["y"])]
+    for (t1, t2) in pairs if tier == "quick" else itertools.product(POOL_TOKENS, repeat=2):
+        for m1, c1, m2, c2 in itertools.product(MODES, CFGS, MODES, CFGS):
+            if c1 is None and c2 is None and tier == "quick":
+                continue
+            yield {"requests": [{"spec": spec, "tokens": t1, "lenient": m1, "cfg": c1},
+                                {"spec": spec, "tokens": t2, "lenient": m2, "cfg": c2}], "via": "command"}
+
+
 def generate(tier, rng):
     import itertools
     pool = _pool()
@@ -61,6 +105,8 @@ def generate(tier, rng):
     for n in range(1, L + 1):
         for seq in itertools.product(range(0, len(pool), 2 if n == 3 else 1), repeat=n):
             yield {"requests": [pool[i] for i in seq], "via": "direct"}
+    for case in _command_cases(tier):
+        yield case
     nrand = 1500 if tier == "quick" else 25000
     for _ in range(nrand):
         reqs = []
@@ -76,7 +122,13 @@ def generate(tier, rng):
                 spec = rng.choice(c02.CATALOGUE)
                 tokens = rng.choice(POOL_TOKENS)
             reqs.append({"spec": spec, "tokens": tokens, "lenient": rng.random() < 0.4})
-        yield {"requests": reqs, "via": rng.choice(["direct", "direct", "config"])}
+        via = rng.choice(["direct", "direct", "config", "command"])
+        if via != "direct":
+            for rq in reqs:
+                if rng.random() < 0.6:
+                    rq["lenient"] = rng.choice(MODES)
+                    rq["cfg"] = rng.choice(CFGS)
+        yield {"requests": reqs, "via": via}
 
 
 def exhaustive(tier):
@@ -93,35 +145,65 @@ def _listing(fmt):
         return ["unreadable: " + type(e).__name__]
 
 
+def modes(case):
+    """per request: (explicit mode or None, what the command's config answers, the mode of the parse) - the config's
+    answer follows from the setters called so far (never called: the default, strict)"""
+    out = []
+    configured = False
+    for rq in case["requests"]:
+        if case["via"] == "config":
+            configured = False
+        if rq.get("cfg") == "enable":
+            configured = True
+        elif rq.get("cfg") == "disable":
+            configured = False
+        ex = rq["lenient"]
+        out.append((ex, configured, configured if ex is None else ex))
+    return out
+
+
 def run_impl(case):
     from clikit.args.argv_args import ArgvArgs
     from clikit.args.default_args_parser import DefaultArgsParser
     shared = DefaultArgsParser()
     results, fresh, mutated = [], [], []
     fmt = args = None
-    for rq in case["requests"]:
+    the_cfg = the_cmd = None      # via "command": one config / command for the whole history
+    for rq, (explicit, _configured, mode) in zip(case["requests"], modes(case)):
         # every request brings its own format OBJECT, and the previous one is gone by then (formats assembled per
         # request are the usual case): nothing the parser remembers about an earlier format object may matter
         fmt = args = cmd = None
+        if the_cmd is not None:
+            the_cmd._args_format = None
         fmt = pc.build_format(rq["spec"])
         argv = ["prog"] + list(rq["tokens"])
         argv_before = list(argv)
         raw = ArgvArgs(argv)
         tokens_before = list(raw.tokens)
         listing_before = _listing(fmt)
-        if case["via"] == "config":
+        if case["via"] in ("config", "command"):
             from clikit.api.config.command_config import CommandConfig
             from clikit.api.command.command import Command
-            cfg = CommandConfig("cmd")
-            cfg.set_args_parser(shared)
+            if case["via"] == "config" or the_cmd is None:
+                cfg = CommandConfig("cmd")
+                cfg.set_args_parser(shared)
+                cmd = Command(cfg)
+                if case["via"] == "command":
+                    the_cfg, the_cmd = cfg, cmd
+            else:
+                cfg, cmd = the_cfg, the_cmd
+            if rq.get("cfg") == "enable":
+                cfg.enable_lenient_args_parsing()
+            elif rq.get("cfg") == "disable":
+                cfg.disable_lenient_args_parsing()
             # the command parses against ITS format; give it the generated one
-            cmd = Command(cfg)
             cmd._args_format = fmt
             try:
-                args = cmd.parse(raw, rq["lenient"])
+                args = cmd.parse(raw) if explicit is None else cmd.parse(raw, explicit)
                 r = {"ok": pc.observe_args(fmt, args)}
             except Exception as e:  # noqa
                 r = {"err": type(e).__name__}
+            cfg = cmd = None
         else:
             try:
                 args = shared.parse(raw, fmt, rq["lenient"])
@@ -137,18 +219,24 @@ def run_impl(case):
         if _listing(fmt) != listing_before:
             m.append("format")
         mutated.append(m)
-        fresh.append(pc.run_parse(DefaultArgsParser(), fmt, rq["tokens"], rq["lenient"]))
+        # the reference: a fresh parser on the same tokens, format and MODE (an explicit mode is the mode; omitted, it is
+        # what the command's config was told)
+        fresh.append(pc.run_parse(DefaultArgsParser(), fmt, rq["tokens"], mode))
     return {"results": results, "fresh": fresh, "mutated": mutated}
 
 
 def model_requests(case):
     reqs = []
-    for rq in case["requests"]:
+    for rq, (explicit, configured, mode) in zip(case["requests"], modes(case)):
         flat = pc.flatten(pc.build_format(rq["spec"]))
-        r = pc.model_request(flat, rq["tokens"], rq["lenient"])
+        r = pc.model_request(flat, rq["tokens"], mode)
         del r["m"]
+        if case["via"] != "direct":
+            # through Command.parse: the model decides the mode (Gen.C05.commandMode, read from the source)
+            del r["lenient"]
+            r["explicit"], r["configured"] = explicit, configured
         reqs.append(r)
-    return [{"m": "c05.history", "requests": reqs}]
+    return [{"m": "c05.history" if case["via"] == "direct" else "c05.command_history", "requests": reqs}]
 
 
 def model_obs(case, answers):
@@ -160,9 +248,15 @@ def impl_view(case, obs):
 
 
 def oracle(case, obs):
+    ms = modes(case)
     for k, (r, f, m) in enumerate(zip(obs["results"], obs["fresh"], obs["mutated"])):
         if r != f:
-            return "request %d on the re-used parser gives %s, a fresh parser gives %s" % (k, str(r)[:300], str(f)[:300])
+            ex, configured, mode = ms[k]
+            how = "" if case["via"] == "direct" else (
+                " through Command.parse(%s) of a command whose config answers lenient=%s"
+                % ("mode omitted" if ex is None else "lenient=%s" % ex, configured))
+            return "request %d%s on the re-used parser gives %s, a fresh parser with lenient=%s gives %s" % (
+                k, how, str(r)[:300], mode, str(f)[:300])
         if m:
             return "request %d modified its inputs: %s" % (k, ", ".join(m))
     return None
@@ -176,7 +270,13 @@ def nontrivial_key(case, obs):
 
 
 def bucket(case, obs):
-    return "%s|len=%d|errs=%d" % (case["via"], len(case["requests"]), sum(1 for r in obs["results"] if "err" in r))
+    how = ""
+    if case["via"] != "direct":
+        ms = modes(case)
+        how = "|explicit=%d omitted=%d against-config=%d" % (
+            sum(1 for e, c, m in ms if e is not None), sum(1 for e, c, m in ms if e is None),
+            sum(1 for e, c, m in ms if e is not None and e != c))
+    return "%s|len=%d|errs=%d%s" % (case["via"], len(case["requests"]), sum(1 for r in obs["results"] if "err" in r), how)
 
 
 def shrink(case):
@@ -184,6 +284,10 @@ def shrink(case):
     for i in range(len(rq)):
         if len(rq) > 1:
             yield {"requests": rq[:i] + rq[i + 1:], "via": case["via"]}
+    for i in range(len(rq)):
+        if rq[i].get("cfg") is not None and case["via"] == "config":
+            r2 = dict(rq[i], cfg=None)
+            yield {"requests": rq[:i] + [r2] + rq[i + 1:], "via": case["via"]}
     for i in range(len(rq)):
         t = rq[i]["tokens"]
         for j in range(len(t)):
